@@ -46,7 +46,42 @@ def gen_input(r, tier, prop):
     return shipped.random_raster_input(r, tier)
 
 
+GRID_NE = list(range(1, 13))
+GRID_FLAG = [True, False, None]
+GRID_RETAIN = [None, "edge_last", "edges_all", "cells_all"]
+GRID_SIZE = len(GRID_NE) * len(GRID_FLAG) * len(GRID_RETAIN)
+
+
+def gen_grid_trace(seed, prop, tier):
+    """Systematic part of the search: for a seeded small tissue, one cell of the product the
+    quantifiers name (ne 1..12 x replace_short_edges on / off / default x who holds references):
+    parse, [retain], generate_mesh, the same generate_mesh again, Frame, [release]."""
+    base, idx = divmod(seed, 1_000_000)
+    g = idx // 4
+    tissue_no, cell = divmod(g, GRID_SIZE)
+    ne = GRID_NE[cell % len(GRID_NE)]
+    flag = GRID_FLAG[(cell // len(GRID_NE)) % len(GRID_FLAG)]
+    ret = GRID_RETAIN[cell // (len(GRID_NE) * len(GRID_FLAG))]
+    r_in = R.stream(base * 1_000_000 + tissue_no, "grid-input")
+    spec = TS.random_spec(r_in, max_side=3 if tier == "quick" else 4, kmax=14)
+    path = r_in.choice(["direct", "se", "wkt"])
+    inp = {"kind": "voronoi", "spec": spec, "path": path}
+    if path == "se":
+        inp["se_opts"] = {"wrap": 10, "orphans": 0, "drop_faces": 0, "seed": 0}
+    steps = [{"op": "parse", "slot": 0, "input": 0}]
+    if ret:
+        steps.append({"fault": "retain", "slot": 0, "kind": ret, "picks": [0.5]})
+    gm = {"op": "generate_mesh", "slot": 0, "ne": ne, "rse": flag}
+    steps += [gm, dict(gm), {"op": "frame", "slot": 0, "gt": False, "keep": False}]
+    if ret:
+        steps.append({"fault": "release", "handle": 0})
+    return {"kind": "mesh", "prop": prop, "config": "grid", "seed": seed, "inputs": [inp], "steps": steps,
+            "release_order": "fifo", "grid": {"tissue": tissue_no, "ne": ne, "flag": flag, "retain": ret}}
+
+
 def gen_trace(seed, config, prop, tier):
+    if config == "grid":
+        return gen_grid_trace(seed, prop, tier)
     r_in = R.stream(seed, "input")
     r_op = R.stream(seed, "ops")
     r_f = R.stream(seed, "faults")
